@@ -50,10 +50,10 @@ fn nl(v: &[u32]) -> String {
 
 async fn arm_dv(args: &Args, sink: &mut Sink, rng: &mut Rng) {
     let mut s = Stream::new("dv", REQ, "chk_dv", "dvec", "option (N * option N * list N * N * list N)");
-    s.shard = 60;
+    s.shard = 150;
     let store = ObjectStore::memory();
     let base = Path::from("dvbase");
-    for i in 0..args.vol(120, 1500) {
+    for i in 0..args.vol(100, 800) {
         let dv = gen_dv(rng, i % 40 == 7);
         let elems = sorted(&dv);
         let input = match &dv {
@@ -111,7 +111,7 @@ async fn arm_dv(args: &Args, sink: &mut Sink, rng: &mut Rng) {
 
 async fn arm_manifest_files(args: &Args, sink: &mut Sink, rng: &mut Rng) {
     let store = ObjectStore::memory();
-    for i in 0..args.vol(40, 400) {
+    for i in 0..args.vol(30, 200) {
         let mut m = manifest(rng, false);
         if i == 3 {
             // > 64 KiB: the reader needs its second range request
